@@ -230,6 +230,28 @@ def py_side(model, proto, rng, quick, stats, viols, ctx):
         if why:
             viols.append(({"class": "items_depend_on_block_partition", "lang": "python", "format": "binary"}, doc(model, proto, vals, parts, ctx, "py_read", why)))
             continue
+        # read side, NDJSON: the reference document (one line per item) read by the generated reader
+        if finite:
+            try:
+                ndtext = codec.encode_ndjson(proto, ns, schema, vals)
+            except Exception:  # noqa  (no NDJSON form for these values)
+                ndtext = None
+            if ndtext is not None:
+                stats["py_ndjson_reads"] = stats.get("py_ndjson_reads", 0) + 1
+                stats["runs"] += 1
+                try:
+                    with runner.time_limit(30):
+                        d2, err2, closed2 = P.read_all(model, proto, "ndjson", io.StringIO(ndtext), collect=collect)
+                except runner.Hang as e:
+                    d2, err2, closed2 = [], RuntimeError("reader did not terminate: %s" % e), False
+                if err2 is None:
+                    why2 = sw.flat_equal(env, ns, proto, flat, d2, True)
+                    if why2:
+                        viols.append(({"class": "items_depend_on_other_items", "lang": "python", "format": "ndjson"}, doc(model, proto, vals, parts, ctx, "py_read_ndjson", why2)))
+                        continue
+                else:
+                    # (whether the mapping of some value is accepted at all is C02's business; only wrong items are judged here)
+                    stats["py_ndjson_read_raised(not judged; C02)"] = stats.get("py_ndjson_read_raised(not judged; C02)", 0) + 1
         # write side: groupings
         try:
             pyvals = P.read_python_values(model, proto, data)
@@ -550,6 +572,9 @@ def model_task(task, ybin, root):
     first.steps.append(("steerpodpad", M.Named("SteerPodPad"), True))
     first.steps.append(("steerpodflat", M.Named("SteerPodFlat"), True))
     first.steps.append(("steernum", M.Prim(rng.choice(["float32", "int16", "uint64", "float64"])), True))
+    # items that can be null themselves (an optional, a union with null): a null item is an item
+    first.steps.append(("steeroptitems", M.Opt(M.Prim(rng.choice(["int32", "string", "float64"]))), True))
+    first.steps.append(("steernullitems", M.Union((("int32", M.Prim("int32")), ("string", M.Prim("string"))), nullable=True), True))
     if want_cpp:
         first.steps.append(("steerlongvec", M.Vec(M.Prim("uint8")), True))
     # items that are numeric arrays: the readers may hand out views of their staging buffer
@@ -614,6 +639,12 @@ def replay_doc(doc_, ybin, root):
             if err is not None:
                 return cls == "reader_raised_on_valid_stream", repr(err)
             why = sw.flat_equal(env, ns, proto, flat, d)
+            return bool(why), why
+        if doc_["pipeline"] == "py_read_ndjson":
+            d, err, closed = P.read_all(model, proto, "ndjson", io.StringIO(codec.encode_ndjson(proto, ns, schema, vals)))
+            if err is not None:
+                return False, "the reader raised (not judged here): %r" % (err,)
+            why = sw.flat_equal(env, ns, proto, flat, d, True)
             return bool(why), why
         if doc_["pipeline"] == "py_write":
             pyvals = P.read_python_values(model, proto, data)
@@ -686,7 +717,7 @@ def main():
                stubbed="C++: nd-array header (cpp.overrideArrayHeader) and date/date.h are verification stubs; harness main emitted from the generated protocols.h",
                assumptions=["reference codec per docs/reference, with int8/uint8 as one raw byte"],
                replay_fn=replay_doc, quick_budget=150,
-               fault_keys=("value_straddles_refill", "empty_write_call", "generator_path", "list_path", "tuple_path", "sized_iterable_path(deque, dict view)", "one_shot_iterator_path(iter, map)", "numpy_array_as_iterable", "producer_reusing_one_object", "items_handed_over_in_a_reused_object", "cpp_previous_version_streams", "block_end_on_buffer_boundary", "cpp_relay", "cpp_script", "cpp_ndjson_relay", "cpp_ndjson_script", "cpp_cppnd_relay", "cpp_cppnd_script", "py_write_histories"))
+               fault_keys=("value_straddles_refill", "empty_write_call", "generator_path", "list_path", "tuple_path", "sized_iterable_path(deque, dict view)", "one_shot_iterator_path(iter, map)", "numpy_array_as_iterable", "producer_reusing_one_object", "items_handed_over_in_a_reused_object", "cpp_previous_version_streams", "py_ndjson_reads", "block_end_on_buffer_boundary", "cpp_relay", "cpp_script", "cpp_ndjson_relay", "cpp_ndjson_script", "cpp_cppnd_relay", "cpp_cppnd_script", "py_write_histories"))
 
 
 if __name__ == "__main__":
